@@ -14,6 +14,8 @@ use std::sync::{Arc, Mutex};
 use std::time::Instant;
 
 pub const DEFAULT_SEED: u64 = 20260926;
+/// per-worker cap on the distinct-hash sets (memory); counts are lower bounds beyond it
+const SET_CAP: usize = 1_500_000;
 
 pub fn run_scenario(sc: &Scenario, keep_log: bool) -> RunOutput {
     match sc.property.as_str() {
@@ -89,16 +91,16 @@ struct Tier {
 
 fn tier_of(prop: &str, tier: &str, scale: f64) -> Tier {
     let base: u64 = match (prop, tier) {
-        ("C06", "quick") => 24,
-        ("C06", _) => 1500,
-        ("C07", "quick") => 12_000,
-        ("C07", _) => 600_000,
-        ("C08", "quick") => 10_000,
-        ("C08", _) => 500_000,
-        ("C09", "quick") => 6_000,
-        ("C09", _) => 300_000,
-        ("C10", "quick") => 8_000,
-        ("C10", _) => 400_000,
+        ("C06", "quick") => 150,
+        ("C06", _) => 6_000,
+        ("C07", "quick") => 80_000,
+        ("C07", _) => 2_500_000,
+        ("C08", "quick") => 80_000,
+        ("C08", _) => 2_500_000,
+        ("C09", "quick") => 40_000,
+        ("C09", _) => 1_250_000,
+        ("C10", "quick") => 50_000,
+        ("C10", _) => 1_500_000,
         _ => 1000,
     };
     Tier { per_type: ((base as f64 * scale) as u64).max(1) }
@@ -171,11 +173,17 @@ impl Agg {
         self.per_world[if sc.world == WorldKind::Blocking { 0 } else { 1 }] += 1;
         if out.nontrivial {
             self.nontrivial += 1;
-            self.distinct.insert(mix(out.full_hash, sc.type_index as u64));
+            if self.distinct.len() < SET_CAP {
+                self.distinct.insert(mix(out.full_hash, sc.type_index as u64));
+            }
         }
-        self.shapes.insert(mix(out.shape_hash, sc.type_index as u64));
-        for h in &out.state_hashes {
-            self.states.insert(*h);
+        if self.shapes.len() < SET_CAP {
+            self.shapes.insert(mix(out.shape_hash, sc.type_index as u64));
+        }
+        if self.states.len() < SET_CAP {
+            for h in &out.state_hashes {
+                self.states.insert(*h);
+            }
         }
         for (a, b) in self.stats.iter_mut().zip(out.stats.iter()) {
             *a += *b;
